@@ -307,3 +307,62 @@ pub fn h_c05_chain_and_cycle() {
     }
     reach("C05.chain_and_cycle");
 }
+
+// ---- C31 through the evaluator: a dynamic array that shrinks leaves no stale spill behind
+/// `=SEQUENCE($A$1)` at a symbolic anchor (rows 2..=4, columns 2..=4; off and on the diagonal), A1 = 3, evaluated;
+/// then A1 becomes 1 or 2 (solver chooses) and the sheet is evaluated again
+pub fn h_c31_shrinking_spill() {
+    let (r, c) = (any_i32_in(2, 4), any_i32_in(2, 4));
+    let mut ws = empty_sheet("Sheet1", 1);
+    let mut row: HashMap<i32, Cell> = HashMap::new();
+    row.insert(1, Cell::NumberCell { v: 3.0, s: 0 });
+    ws.sheet_data.insert(1, row);
+    let mut model = model_from_workbook(workbook_with_cells(vec![ws]));
+    let typed = model.set_user_input(0, r, c, "=SEQUENCE($A$1)".to_string()).is_ok();
+    check("C31.shrink.entered", typed);
+    if !typed { return; }
+    model.evaluate();
+    let v = |m: &Model, rr: i32| m.get_cell_value_by_index(0, rr, c);
+    check("C31.shrink.first_spill_exact", (v(&model, r) == Ok(CellValue::Number(1.0))) & (v(&model, r + 1) == Ok(CellValue::Number(2.0)))
+        & (v(&model, r + 2) == Ok(CellValue::Number(3.0))) & (v(&model, r + 3) == Ok(CellValue::None)));
+    let n = any_i32_in(1, 2);
+    model.update_cell_with_number(0, 1, 1, n as f64).ok();
+    model.evaluate();
+    check("C31.shrink.covered_cells_hold_the_result", (v(&model, r) == Ok(CellValue::Number(1.0))) & ((n == 1) | (v(&model, r + 1) == Ok(CellValue::Number(2.0)))));
+    check("C31.shrink.no_stale_value_outside_the_result", ((n == 2) | (v(&model, r + 1) == Ok(CellValue::None))) & (v(&model, r + 2) == Ok(CellValue::None)));
+    reach("C31.shrink");
+}
+
+/// a horizontal spill (`=F1:H1` at A3, spilling A3:C3) whose source loses a column: after the structural edit and the
+/// next evaluation the spill covers exactly the new result
+pub fn h_c31_spill_after_column_delete() {
+    let mut ws = empty_sheet("Sheet1", 1);
+    let mut row: HashMap<i32, Cell> = HashMap::new();
+    row.insert(6, Cell::NumberCell { v: 1.0, s: 0 });
+    row.insert(7, Cell::NumberCell { v: 2.0, s: 0 });
+    row.insert(8, Cell::NumberCell { v: 3.0, s: 0 });
+    ws.sheet_data.insert(1, row);
+    let mut model = model_from_workbook(workbook_with_cells(vec![ws]));
+    let typed = model.set_user_input(0, 3, 1, "=F1:H1".to_string()).is_ok();
+    check("C31.column_delete.entered", typed);
+    if !typed { return; }
+    model.evaluate();
+    let v = |m: &Model, cc: i32| m.get_cell_value_by_index(0, 3, cc);
+    check("C31.column_delete.first_spill_exact", (v(&model, 1) == Ok(CellValue::Number(1.0))) & (v(&model, 2) == Ok(CellValue::Number(2.0)))
+        & (v(&model, 3) == Ok(CellValue::Number(3.0))) & (v(&model, 4) == Ok(CellValue::None)));
+    // delete G or H (the solver chooses): the source shrinks to two columns
+    let col = any_i32_in(7, 8);
+    if model.delete_columns(0, col, 1).is_ok() {
+        model.evaluate();
+        // deleting the inner column G leaves F1:G1 = {1, 3}; deleting the corner column H turns the corner into #REF!
+        // (the formula then shows an error and spills nothing)
+        if col == 7 {
+            check("C31.column_delete.spill_is_the_new_result", (v(&model, 1) == Ok(CellValue::Number(1.0))) & (v(&model, 2) == Ok(CellValue::Number(3.0))));
+        } else {
+            let is_error = match v(&model, 1) { Ok(CellValue::String(t)) => t.starts_with('#'), _ => false };
+            check("C31.column_delete.lost_corner_is_an_error", is_error & (v(&model, 2) == Ok(CellValue::None)));
+        }
+        check("C31.column_delete.no_stale_value", v(&model, 3) == Ok(CellValue::None));
+    }
+    reach("C31.column_delete");
+}
